@@ -101,3 +101,23 @@ def specCmp {α} (ops : FieldOps α) (ti : TypeInfo) (it : Item) : Val α → Va
   | _, _ => .eq
 
 end DW
+
+namespace DW
+
+/-- The reference's rule for discriminant values: the explicit value, otherwise
+the previous variant's plus one, starting at zero. -/
+def rustDiscrGo : List Data → Int → List Int
+  | [], _ => []
+  | v :: rest, next =>
+    let cur := match v.discriminant with
+      | some e => e.value
+      | none => next
+    cur :: rustDiscrGo rest (cur + 1)
+
+def rustDiscrs (vs : List Data) : List Int := rustDiscrGo vs 0
+
+/-- The table of explicit discriminant values of a variant list. -/
+def userDiscrOf (vs : List Data) : DiscrTable :=
+  fun k => ((vs[k]?).bind (·.discriminant)).map (·.value)
+
+end DW
